@@ -4,3 +4,5 @@ pub mod worker;
 pub mod h2;
 pub mod c12kit;
 pub mod cfgmodel;
+pub mod h2kit;
+pub mod wctl;
